@@ -41,6 +41,9 @@ pub fn eval(case: &SolveCase, obs: &mut CaseObs, known: &KnownFindings, prop: &s
     if t.has_potential() {
         obs.label("model:potential");
     }
+    if t.join.is_some() {
+        obs.label("model:lattice");
+    }
     match o.opt {
         None => obs.label("opt:infeasible"),
         Some(v) if v < 0 => obs.label("opt:negative"),
